@@ -28,7 +28,7 @@ from vlib.prog import Program
 
 HIER = {"classes": [{"bases": []}, {"bases": [0]}, {"bases": []}, {"bases": [1, 2]}]}
 KN = ["K0", "K1", "K2", "K3"]
-SCENARIOS = ["first-same", "first-diff", "miss-same", "miss-diff", "chain", "dependent", "method"]
+SCENARIOS = ["first-same", "first-diff", "miss-same", "miss-diff", "chain", "chain-cross", "dependent", "method"]
 
 
 def M(i, anns, prio=0, sites=()):
@@ -59,6 +59,12 @@ def scenario(name, variant=0):
         ch = {"args": [["inst", "K1"]], "kw": {}, "script": [["site", 0, "same"], ["site", 0, "same"], ["site", 0, "same"]]}
         ch2 = {"args": [["inst", "K3"]], "kw": {}, "script": [["site", 0, "same"], ["site", 0, "same"]]}
         return dict(methods=base, host="func", warm=[k("K0")] if variant else [], racers=[ch, ch2], probes=probes)
+    if name == "chain-cross":
+        # a method dispatched on one type delegates with call_next to ANOTHER type while a second thread is in the
+        # middle of the first resolution of that type
+        cross = {"args": [["inst", "K1"]], "kw": {}, "script": [["site", 0, [["inst", "K3"]], {}], ["site", 0, "same"]]}
+        plain = {"args": [["inst", "K3"]], "kw": {}, "script": [["site", 0, "same"]]}
+        return dict(methods=base, host="func", warm=[k("K0")] if variant else [k("K1")], racers=[cross, plain], probes=probes)
     if name == "dependent":
         ms = [M(0, [["dep", ["cls", "int"], "pos"]]), M(1, [["lit", [0]]]), M(2, [["cls", "int"]], sites=[]),
               M(3, [["lit", [1, 2]]]), M(4, [["obj"]], prio=-1)]
